@@ -622,7 +622,12 @@ def part_from_matchfile(
         )
 
         staff_nr = next(
-            (a[-1] for a in note.ScoreAttributesList if a.startswith("staff")), None
+            (
+                a[len("staff") :]
+                for a in note.ScoreAttributesList
+                if a.startswith("staff")
+            ),
+            None,
         )
         try:
             note_attributes["staff"] = int(staff_nr)
